@@ -181,6 +181,15 @@ func checkSequence(s ugen.SeqCase) error {
 			a.Spelled = a.Dst
 			ev.Label("other-destination")
 		}
+		cwd1 := a.Cwd
+		moved := i > 0 && s.More[i-1].MovedCwd && s.First.Spelling == "rel-name"
+		if moved {
+			// the same text "dst", read from another working directory: it names l1/l2/dst, which Unpack creates
+			rel = ugen.MovedRel
+			a.Dst = filepath.Join(a.R, filepath.FromSlash(rel))
+			a.Spelled, a.Cwd = "dst", filepath.Dir(a.Dst)
+			ev.Label("working-directory-moved")
+		}
 		if i > 0 && s.More[i-1].Wipe {
 			a.Wipe()
 			ev.Label("wiped-between")
@@ -216,6 +225,18 @@ func checkSequence(s ugen.SeqCase) error {
 		d := fsx.Diff(before, after, fsx.AllFields)
 		if hl := s.First.PreHardLinks(); len(hl) > 0 {
 			d = maskHardLinked(d, hl)
+		}
+		if moved {
+			// creating the destination is an entry made in its parent: that directory's own times change
+			var keep []string
+			for _, x := range d {
+				if strings.HasPrefix(x, "l1/l2: mtime") || strings.HasPrefix(x, "l1/l2: ctime") {
+					continue
+				}
+				keep = append(keep, x)
+			}
+			d = keep
+			a.Cwd = cwd1
 		}
 		if len(d) > 0 {
 			if len(d) > 6 {
